@@ -267,6 +267,7 @@ func (c *Ctx) nafCheck(p *load.Program, f *ssa.Function, w int) (bool, string) {
 	seen := map[string]bool{k0: true}
 	var resObj *absint.Object
 	steps, partitions, exits := 0, 0, 0
+	var exitKeys [][]int64
 	maxDigit := int64(0)
 	limit := int64(1) << uint(w-1)
 	for len(work) > 0 {
@@ -307,23 +308,7 @@ func (c *Ctx) nafCheck(p *load.Program, f *ssa.Function, w int) (bool, string) {
 						setFail("the loop exits at position %d: bits %d…%d of the scalar are never recoded", pos, pos, nafScalarBits-1)
 						return
 					}
-					if len(r.Writes) != 0 {
-						setFail("the exit path from position %d writes memory", pos)
-						return
-					}
-					// the result must be the digit array itself
-					if resObj != nil {
-						if len(r.Ret) != 1 {
-							setFail("the recoding does not return one array")
-							return
-						}
-						got, _ := r.Ret[0].(*absint.Agg)
-						cur, _ := resObj.Val.(*absint.Agg)
-						if got == nil || cur == nil || len(got.Elems) != len(cur.Elems) || len(got.Elems) != 256 {
-							setFail("the returned value is not the 256-entry digit array")
-							return
-						}
-					}
+					exitKeys = append(exitKeys, cur.vals)
 					return
 				}
 				nk, nv, ok := keyOf(r.Next)
@@ -339,11 +324,16 @@ func (c *Ctx) nafCheck(p *load.Program, f *ssa.Function, w int) (bool, string) {
 				delta := uint(npos - pos)
 				sum := new(big.Int)
 				for _, wr := range r.Writes {
+					if wr.Obj.ID >= r.FirstNewObj {
+						continue // scratch allocated by this very iteration: it cannot carry state to the next one
+					}
 					if resObj == nil {
-						resObj = wr.Obj
+						if a, isArr := wr.Obj.Type.Underlying().(*types.Array); isArr && a.Len() == 256 {
+							resObj = wr.Obj
+						}
 					}
 					if wr.Obj != resObj || len(wr.Path) != 1 {
-						setFail("iteration at position %d writes %s%v besides the digit array", pos, wr.Obj.Name, wr.Path)
+						setFail("UNDECIDED: iteration at position %d writes %s%v, memory that outlives the iteration and is not the digit array (loop state outside the header's variables)", pos, wr.Obj.Name, wr.Path)
 						return
 					}
 					idx := int64(wr.Path[0])
@@ -400,6 +390,50 @@ func (c *Ctx) nafCheck(p *load.Program, f *ssa.Function, w int) (bool, string) {
 	}
 	if resObj == nil || exits == 0 {
 		return false, "UNDECIDED: no iteration writes a digit / the loop never exits"
+	}
+	// every exit returns the digit array as the loop left it: with the array set to distinct sentinels,
+	// one more step from each exiting partition must hand back exactly those sentinels
+	if arr0, ok := resObj.Val.(*absint.Agg); ok && len(arr0.Elems) == 256 {
+		saved := arr0.Elems
+		sent := make([]absint.Val, 256)
+		for i := range sent {
+			sent[i] = absint.MkInt(int64(i%100 + 1))
+		}
+		for _, vals := range exitKeys {
+			resObj.Val = &absint.Agg{Elems: append([]absint.Val{}, sent...)}
+			phi := map[*ssa.Phi]absint.Val{}
+			for i, ph := range ls.Phis {
+				phi[ph] = absint.MkInt(vals[i])
+			}
+			bad := ""
+			in.Decisions, in.Trace, in.PathCond = nil, nil, nil
+			d.ResetAssignment(in)
+			o := ls.Step(phi, func(r *absint.StepResult) {
+				if !r.Exit || len(r.Ret) != 1 {
+					bad = "the exit is not reproducible"
+					return
+				}
+				got, _ := r.Ret[0].(*absint.Agg)
+				if got == nil || len(got.Elems) != 256 {
+					bad = "the returned value is not the 256-entry digit array"
+					return
+				}
+				for i, e := range got.Elems {
+					iv, ok := e.(absint.Int)
+					if !ok || iv.V.Int64() != int64(i%100+1) {
+						bad = fmt.Sprintf("entry %d of the returned array is not entry %d of the digit array the loop wrote", i, i)
+						return
+					}
+				}
+			})
+			resObj.Val = &absint.Agg{Elems: saved}
+			if o.Kind != absint.ExitReturn {
+				bad = o.Undecided + o.PanicMsg
+			}
+			if bad != "" {
+				return false, fmt.Sprintf("exit from (position, carry) = %v: %s", vals, bad)
+			}
+		}
 	}
 	// digits start at zero
 	arr, _ := resObj.Val.(*absint.Agg)
